@@ -71,10 +71,15 @@ def findFromAux (pat text : Bytes) : Nat → Nat → Option Nat
 def findFrom (pat text : Bytes) (start : Nat) : Option Nat :=
   findFromAux pat text start (text.length + 1 - start)
 
+/-- every position in `[i, i+fuel)` at which the pattern occurs, ascending -/
+def findAllAux (pat text : Bytes) : Nat → Nat → List Nat
+  | _, 0 => []
+  | i, fuel + 1 => if matchAt pat text i then i :: findAllAux pat text (i + 1) fuel else findAllAux pat text (i + 1) fuel
+
 /-- `string/find-all`: every occurrence (overlapping ones included — kmp_next continues with
     `j = lookup[patlen-1]`) at an index `≥ start`, ascending. -/
 def findAll (pat text : Bytes) (start : Nat) : List Nat :=
-  (List.range (text.length + 1)).filter (fun i => decide (start ≤ i) && matchAt pat text i)
+  findAllAux pat text start (text.length + 1 - start)
 
 /-- `string/find`: `none` = error (empty pattern); `some none` = nil. -/
 def find (pat text : Bytes) (start : Nat) : Option (Option Nat) :=
